@@ -1348,7 +1348,8 @@ package xpath
 //@   ensures[wf@C15] built(result0, result1)
 //@   ensures[known-axis@C17] result1 == nil ==> axisKnown(root.AxisType)
 //@ func (*builder).processFilter
-//@   props C15 C06 C17 C01
+//@   props C15 C06 C17 C01 C13
+//@   ensures[detached-parent-kept@C13!!] result1 == nil && bound(parent, 1) && ver(parent, 1) != nil ==> is(result0, *mergeQuery) && as(result0, *mergeQuery).Input == ver(parent, 1)     // when the first step is cut off its parent path (to count positions per parent), the parent path is put back as the input of the merge: an absolute or longer path never loses its left part
 //@   ensures[never-pruned@C01] result1 == nil ==> !is(result0, *descendantOverDescendantQuery)
 //@   requires[depth@C06] 0 <= b.parseDepth && b.parseDepth <= 1024
 //@   maypanic
@@ -1374,7 +1375,8 @@ package xpath
 //@   ensures[arity@C17] result1 == nil ==> len(root.Args) >= minArgs(root.FuncName)
 //@   ensures[constant-pattern@C16] result1 == nil && (root.FuncName == "matches" || root.FuncName == "replace") && bound(arg2, 0) && is(arg2, *constantQuery) && is(as(arg2, *constantQuery).Val, string) ==> loadok(RegexpCache, box(as(as(arg2, *constantQuery).Val, string)))
 //@ func (*builder).processOperator
-//@   props C15 C06 C17 C08 C07 C01
+//@   props C15 C06 C17 C08 C07 C01 C11
+//@   ensures[union@C11!!] result1 == nil && root.Op == "|" ==> is(result0, *unionQuery) && as(result0, *unionQuery).Left == retval(processNode, 0, 0) && as(result0, *unionQuery).Right == retval(processNode, 1, 0)     // A | B is always built as the union of the two built operands, whatever they look like
 //@   ensures[never-pruned@C01] result1 == nil ==> !is(result0, *descendantOverDescendantQuery)
 //@   ensures[plus@C08] result1 == nil && root.Op == "+" ==> is(result0, *numericQuery) && fn(as(result0, *numericQuery).Do) == fnid("plusFunc")
 //@   ensures[minus@C08] result1 == nil && root.Op == "-" ==> is(result0, *numericQuery) && fn(as(result0, *numericQuery).Do) == fnid("minusFunc")
@@ -1945,6 +1947,10 @@ package xpath
 //@   props C15 C02 C13
 //@   uses one-document
 //@   theory stream
+//@ func (*groupQuery).Properties
+//@   props C15 C03
+//@   modifies nothing
+//@   ensures[one-sequence@C03] (result & 16) == 0     // queryProps.Merge (16) is never offered: positions on a parenthesised path count over the whole path, it is not split per parent
 //@ func (*groupQuery).Evaluate
 //@   props C15 C02 C13
 //@   uses one-document
